@@ -78,7 +78,7 @@ Fixpoint split_at (c : N) (s : str) : option (str * str) :=
 
 (* ------------------------------------------------------------------ the patterns *)
 Definition starts_0x (s : str) : bool :=
-  match s with 48 :: 120 :: _ => true | _ => false end.
+  match s with a :: b :: _ => (a =? 48) && (b =? 120) | _ => false end.
 (* _field_address = (\d+)|(0x(HH)+) *)
 Definition is_field (s : str) : bool :=
   digits s || (starts_0x s && hex_pairs (skipn 2 s)).
@@ -152,14 +152,14 @@ Definition strip_nl (s : str) : str :=
 Fixpoint eth_groups (n : nat) (s : str) : bool :=
   match n, s with
   | O, [a; b] => is_hex a && is_hex b
-  | S k, a :: b :: 58 :: r => is_hex a && is_hex b && eth_groups k r
+  | S k, a :: b :: c :: r => (c =? 58) && is_hex a && is_hex b && eth_groups k r
   | _, _ => false
   end.
 Definition is_ethernet (s : str) : bool := eth_groups 5 s.
 (* X'(HH)+' *)
 Definition is_oldhex (s : str) : bool :=
   match s with
-  | 88 :: 39 :: r => (last r 0 =? 39) && hex_pairs (removelast r)
+  | a :: b :: r => (a =? 88) && (b =? 39) && (last r 0 =? 39) && hex_pairs (removelast r)
   | _ => false
   end.
 
@@ -184,9 +184,11 @@ Definition be_val (l : list N) : N := fold_left (fun acc b => acc * 256 + b) l 0
 (* glibc inet_aton on one of four parts: leading 0 => octal; value <= 255 *)
 Definition aton_part (s : str) : option N :=
   match s with
-  | 48 :: (_ :: _) as r =>
-      if forallb is_octal r then (let v := oct_acc 0 r in if v <=? 255 then Some v else None)
-      else None
+  | z :: (_ :: _) as r =>
+      if z =? 48 then
+        if forallb is_octal r then (let v := oct_acc 0 r in if v <=? 255 then Some v else None)
+        else None
+      else let v := dec_val s in if v <=? 255 then Some v else None
   | _ => let v := dec_val s in if v <=? 255 then Some v else None
   end.
 (* socket.inet_aton restricted to \d+.\d+.\d+.\d+ texts (OSError otherwise; the short and
